@@ -158,9 +158,20 @@ impl Monitor for C06 {
                 c.stats.sig(&["claim", &paid.len().to_string(), if until_epoch.is_some() { "until" } else { "now" }, &post.farms.len().min(4).to_string()]);
             }
         }
+        // ---- at DryClaims steps: nobody's rightful claim fails because a farm ran dry
         if matches!(step.op, Op::DryClaims) {
             for u in users_with_open(post) {
-                let _ = dry_claim_ok(c, &u);
+                let snap = c.w.snapshot();
+                c.stats.forks += 1;
+                let o = c.exec_op(&Op::Fm { sender: u.clone(), msg: FmMsg::Claim { until_epoch: None }, funds: vec![] }, None);
+                c.w.restore(&snap);
+                c.stats.bump("probe.c06.dry_claim");
+                if !o.ok() && o.err_text().contains("enough funds to pay out the reward") {
+                    return Err(viol(
+                        "C06.claim_fails_farm_exhausted",
+                        format!("{}'s claim fails because a farm cannot pay the computed reward (somebody was overpaid or the total weight is below the users' sum)", c.w.a.name(&u)),
+                    ));
+                }
             }
         }
         // own cursors and windows are cleared when a user leaves (documented: pending rewards are
